@@ -204,3 +204,44 @@ package stack
 //@   loop 0: invariant -1 <= rangeindex && rangeindex < len(a.Values) && len(a.Values) == len(r.Values) && a.Elided == r.Elided && r != nil
 //@   loop 0: invariant forall j :: 0 <= j && j <= rangeindex ==> SimArg(&a.Values[j], &r.Values[j], ExactFlags)
 //@   loop 0: decreases len(a.Values) - rangeindex
+
+//@ pred SimCall(c *Call, r *Call, lvl Similarity) = c.Line == r.Line && c.Func.Complete == r.Func.Complete && c.RemoteSrcPath == r.RemoteSrcPath && SimArgs(&c.Args, &r.Args, lvl)
+//@ pred SimStack(s *Stack, r *Stack, lvl Similarity) = len(s.Calls) == len(r.Calls) && s.Elided == r.Elided && forall i :: 0 <= i && i < len(s.Calls) ==> SimCall(&s.Calls[i], &r.Calls[i], lvl)
+//@ pred SimSig(s *Signature, r *Signature, lvl Similarity) = s.State == r.State && SimStack(&s.CreatedBy, &r.CreatedBy, lvl) && (lvl == ExactFlags ==> s.Locked == r.Locked) && SimStack(&s.Stack, &r.Stack, lvl)
+//@ pred EqSig(s *Signature, r *Signature) = SimSig(s, r, ExactFlags) && s.SleepMin == r.SleepMin && s.SleepMax == r.SleepMax
+
+//@ func (*Call).similar
+//@   requires c != nil && r != nil
+//@   modifies nothing
+//@   ensures [callSimilarIsSpec C05] result <==> SimCall(c, r, similar)
+
+//@ func (*Call).equal
+//@   requires c != nil && r != nil
+//@   modifies nothing
+//@   ensures [callEqualIsSpec C05 C12] result <==> SimCall(c, r, ExactFlags)
+
+//@ func (*Stack).similar
+//@   requires s != nil && r != nil
+//@   modifies nothing
+//@   ensures [stackSimilarIsSpec C05] result <==> SimStack(s, r, similar)
+//@   loop 0: invariant -1 <= rangeindex && rangeindex < len(s.Calls) && len(s.Calls) == len(r.Calls) && s.Elided == r.Elided && r != nil && s != nil
+//@   loop 0: invariant forall j :: 0 <= j && j <= rangeindex ==> SimCall(&s.Calls[j], &r.Calls[j], similar)
+//@   loop 0: decreases len(s.Calls) - rangeindex
+
+//@ func (*Stack).equal
+//@   requires s != nil && r != nil
+//@   modifies nothing
+//@   ensures [stackEqualIsSpec C05 C12] result <==> SimStack(s, r, ExactFlags)
+//@   loop 0: invariant -1 <= rangeindex && rangeindex < len(s.Calls) && len(s.Calls) == len(r.Calls) && s.Elided == r.Elided && r != nil && s != nil
+//@   loop 0: invariant forall j :: 0 <= j && j <= rangeindex ==> SimCall(&s.Calls[j], &r.Calls[j], ExactFlags)
+//@   loop 0: decreases len(s.Calls) - rangeindex
+
+//@ func (*Signature).similar
+//@   requires s != nil && r != nil
+//@   modifies nothing
+//@   ensures [sigSimilarIsSpec C05] result <==> SimSig(s, r, similar)
+
+//@ func (*Signature).equal
+//@   requires s != nil && r != nil
+//@   modifies nothing
+//@   ensures [sigEqualIsSpec C05 C12] result <==> EqSig(s, r)
